@@ -468,13 +468,13 @@ def run_property(pid, tier, seed):
                             collect_funcs=True,
                             concolic=(tier == 'thorough' and spec.get('concolic', False)))
             if not front['cuts'] or len(front['cuts']) >= target or front['violations'] \
-                    or front['errors'] or depth > 60 or not front['exhausted']:
+                    or _fatal(front['errors']) or depth > 60 or not front['exhausted']:
                 break
         cuts = front.pop('cuts')
         front['cuts'] = []
         merge(agg, front)
-        if front['violations'] or front['errors']:
-            continue        # a verdict or a harness error already: no point in exploring the shards
+        if front['violations'] or _fatal(front['errors']):
+            continue        # a verdict or a path timeout already: no point in exploring the shards
         rng_order = list(range(len(cuts)))
         import random
         random.Random(seed).shuffle(rng_order)
@@ -492,7 +492,9 @@ def run_property(pid, tier, seed):
         ctx = multiprocessing.get_context('spawn')
         with cf.ProcessPoolExecutor(max_workers=min(ncpu, len(jobs)), mp_context=ctx) as ex:
             futs = [ex.submit(custom_worker if j['kind'] == 'custom' else worker, j) for j in jobs]
+            fkey = {fu: (j['harness'], j['index']) for fu, j in zip(futs, jobs)}
             stop = False
+            errored = set()
             for fu in cf.as_completed(futs):
                 if fu.cancelled():
                     continue
@@ -501,11 +503,20 @@ def run_property(pid, tier, seed):
                 r.pop('cuts', None)
                 r['cuts'] = []
                 merge(per[key], r)
-                if (r['violations'] or r['errors']) and not stop:
+                if r['violations'] and not stop:
+                    # a verdict: nothing else needs to run
                     stop = True
                     open(stop_file, 'w').close()
                     for other in futs:
                         other.cancel()
+                elif _fatal(r['errors']) and key not in errored:
+                    # a path timeout makes THIS entry inconclusive and every further shard of it would burn the same
+                    # time; the other entries (and, for any other kind of error, the other shards) may still find a
+                    # violation, which takes precedence over harness errors
+                    errored.add(key)
+                    for other in futs:
+                        if fkey[other] == key:
+                            other.cancel()
         if os.path.exists(stop_file):
             os.unlink(stop_file)
     # ------------------------------------------------------------------ verdicts
@@ -567,6 +578,11 @@ def run_property(pid, tier, seed):
         print('NOTE: wall budget hit before the tree was exhausted: bug-hunting only for the '
               'unexplored part (see evidence)')
     return 0
+
+
+def _fatal(errors):
+    """errors after which exploring more of the same entry is pointless (per-path watchdog expiries)"""
+    return any(str(e).startswith('path timeout') for e in errors)
 
 
 def write_evidence(pid, tier, seed, mod, per, total, wall, exhaustive, viols, problems, known_entries, selftest_info=''):
